@@ -147,6 +147,15 @@ pub fn bfs_programs<F: Flt, D: Subject<F>>(
                 checked.lock().unwrap().1 += 1;
                 return;
             }
+            // the closed forms of the spherical Bessel functions divide by x^3 and their quotient rule
+            // squares that denominator: sixth powers of the argument must be representable too
+            if matches!(step.op, Op::SphJ0 | Op::SphJ1 | Op::SphJ2) {
+                let lim = if F::PREC < 53 { 1e6 } else { 1e50 };
+                if a[0].v.c.iter().any(|c| c.hi.abs() > lim) {
+                    checked.lock().unwrap().1 += 1;
+                    return;
+                }
+            }
             let want = apply_ref(step.op, &a, F::U);
             // the rounding model assumes no overflow / underflow of intermediates: keep every
             // non-zero reference coefficient well inside the range of F (cubes must be representable)
